@@ -164,7 +164,7 @@ def must_pass(prog, leaves, body, leafset, mode='all', starts=None, targets=None
         targets = [e['bb'] for e in tg]
     starts = [0] if starts is None else starts
     extra_cut_edges = set(extra_cut_edges) | infeasible_true_edges(prog, body)
-    reach = flow.reach_edges(body, starts, avoid_edges=set(via) | set(extra_cut_edges), avoid_blocks=pass_blocks)
+    reach = flow.reach_edges_cp(body, starts, avoid_edges=set(via) | set(extra_cut_edges), avoid_blocks=pass_blocks)
     escaping = [t for t in targets if t in reach]
     paths = []
     for t in escaping[:3]:
@@ -333,7 +333,7 @@ def certified_set(prog, leaves, gate_funcs, candidates):
                         via |= cf.ok_edges
                         gcalls.append(bb)
             targets = [e['bb'] for e in success_exit_blocks(b, forwarded_from=gcalls)]
-            reach = flow.reach_edges(b, [0], avoid_edges=via | infeasible_true_edges(prog, b))
+            reach = flow.reach_edges_cp(b, [0], avoid_edges=via | infeasible_true_edges(prog, b))
             esc = [t_ for t_ in targets if t_ in reach]
             if esc or not gcalls:
                 C.discard(q)
